@@ -12,6 +12,7 @@ import copy
 import logging
 import threading
 import threading as _threading
+from concurrent.futures import BrokenExecutor as _BrokenExecutor
 from concurrent.futures import Executor as _Executor
 from concurrent.futures import Future as _CFuture
 from concurrent.futures import ThreadPoolExecutor
@@ -22,6 +23,8 @@ from haiway import MISSING, asynchronous, cache, ctx, retry, throttle, timeout, 
 from haiway.helpers.tracing import ArgumentsTrace, ResultTrace
 from hv import progs as P
 from hv.core import Outcome
+
+P.scope_log_shapes()  # learned once, before any case runs
 
 PID = "C18"
 LEVEL = "exploration"
@@ -37,6 +40,7 @@ RULE = (
     "scope, or a method call; distinct = distinct case"
 )
 RULE += "; the explicit executor may be a concurrent.futures.Executor of the caller's own (thread per call)"
+RULE += "; built-in exception classes as the function's outcome; the call may be handed to create_task / ctx.spawn instead of being awaited in place"
 LEVEL_TEXT = (
     "Differential: what the undecorated function receives, returns or raises is compared with the decorated call "
     "(identity for exceptions); inside the function the thread identity, a loop heartbeat and the caller's context "
@@ -89,6 +93,20 @@ class _ThreadPerCall(_Executor):
 
 
 THREADED = {"asynchronous_bare", "asynchronous_call", "asynchronous_executor"}
+
+
+# exception classes the helpers' own plumbing meets as well (executors, loops, futures, timeouts): raised by the FUNCTION they
+# are its outcome like any other
+_BUILTIN_RAISED = {
+    "RuntimeError": RuntimeError,
+    "NotImplementedError": NotImplementedError,
+    "TimeoutError": TimeoutError,
+    "LookupError": LookupError,
+    "AssertionError": AssertionError,
+    "OSError": OSError,
+    "InvalidStateError": asyncio.InvalidStateError,
+    "BrokenExecutor": _BrokenExecutor,
+}
 
 
 class FnErr(Exception):
@@ -288,7 +306,7 @@ def run_case(case) -> Outcome:  # noqa: C901, PLR0912, PLR0915
     outcome = case["outcome"]
     result_value = make_value(outcome["v"]) if outcome["kind"] == "return" else None
     if outcome["kind"] == "raise":
-        exc_cls = {"FnErr": FnErr, "ValueError": ValueError, "KeyError": KeyError, "FnBase": FnBase}[outcome["v"]["x"]]
+        exc_cls = {"FnErr": FnErr, "ValueError": ValueError, "KeyError": KeyError, "FnBase": FnBase, **_BUILTIN_RAISED}[outcome["v"]["x"]]
         raised_obj = exc_cls("boom")
     else:
         raised_obj = None
@@ -513,7 +531,18 @@ def run_case(case) -> Outcome:  # noqa: C901, PLR0912, PLR0915
                     if seen.get("spawned") is not None:
                         obs["background"] = await seen["spawned"]
                 elif not sync_dec:
-                    r = await r
+                    via = case.get("via", "await")
+                    if via == "task":
+                        # the ordinary ways of running a coroutine function: what the decorated function returns is handed
+                        # to a task instead of being awaited in place
+                        r = await loop.create_task(r)
+                    elif via == "spawn" and case["nest"] and outcome["kind"] == "return":
+                        # (a failing spawned task would cancel the scope it was spawned into: task-group semantics, not
+                        # the decorator's)
+                        r.close()  # not used: ctx.spawn makes the call itself
+                        r = await ctx.spawn(target, *a, **kwargs)
+                    else:
+                        r = await r
                 obs["result"] = ("ret", r)
             except BaseException as exc:  # noqa: BLE001 - the observation
                 if isinstance(exc, (KeyboardInterrupt, SystemExit)):
@@ -663,9 +692,11 @@ def run_case(case) -> Outcome:  # noqa: C901, PLR0912, PLR0915
                 out.violate("traced", f"C18.traced/wrong-result-recorded/{tag}/cancelled", f"{rt[-1].result!r}")
         elif rt[-1].result is not want:
             out.violate("traced", f"C18.traced/wrong-result-recorded/{tag}", f"{rt[-1].result!r} vs {want!r}")
-        started = [r for r in captured if "Started" in str(r.msg) and "[target]" in str(r.msg)]
-        if not started:
-            out.violate("traced", f"C18.traced/no-scope-named-after-function/{tag}", f"{[str(r.msg)[:80] for r in captured][:6]}")
+        # the scope's name is observed through the line the library logs when a scope is entered (wording learned from a
+        # calibration scope; None = this library logs nothing that could be recognised, not judged then)
+        started = P.scope_log_lines(captured, "target", "enter")
+        if started is not None and not started:
+            out.violate("traced", f"C18.traced/no-scope-named-after-function/{tag}", f"{[P.record_text(r)[:80] for r in captured][:6]}")
     classes = [dec.split("_")[0], *classes_extra]
     if method:
         classes.append("method")
@@ -802,7 +833,7 @@ def strategy(tier):
         if kind == "return":
             outcome = {"kind": "return", "v": draw(value)}
         else:
-            outcome = {"kind": "raise", "v": {"x": draw(st.sampled_from(["FnErr", "ValueError", "KeyError"] + ([] if dec in ("retry",) else ["FnBase"])))}}
+            outcome = {"kind": "raise", "v": {"x": draw(st.sampled_from(["FnErr", "ValueError", "KeyError", *_BUILTIN_RAISED] + ([] if dec in ("retry",) else ["FnBase"])))}}
         if dec == "retry" and kind == "raise":
             outcome = {"kind": "return", "v": draw(value)}  # retry's own behaviour is C14's subject
         if dec in ("wrap_async_sync", "asynchronous_bare", "asynchronous_call", "traced_sync") and outcome["kind"] == "return" and draw(st.integers(0, 3)) == 0:
@@ -831,6 +862,7 @@ def strategy(tier):
             "nest": nest,
             "nodoc": draw(st.integers(0, 5)) == 0,
             "spawns": draw(st.integers(0, 2)) == 0,
+            "via": draw(st.sampled_from(["await", "await", "task", "spawn"])),
             "executor": draw(st.sampled_from(["default", "explicit", "custom"])) if dec in ("asynchronous_executor",) else "default",
         }
 
